@@ -309,7 +309,9 @@ def main(argv=None):
     describe = dict(
         level="other",
         rule="every C02 case (all differentiable operations and option combinations, incl. hand-written backward()s of GRU, sequence ops, "
-             "focal loss, einsum) plus 15 aliasing-prone programs (identity-like ops, views, repeated use, index objects)",
+             "focal loss, einsum) plus 15 aliasing-prone programs (identity-like ops, views, repeated use, index objects) and 16 masked ufunc calls whose operands have "
+             "exactly the output's shape; each body runs three times: symbolic leaves under the case's domain assumption, and all leaf elements 0 / "
+             "all 1 without it (degenerate points the gradient checks exclude)",
         explanation="symbolic arrays make every element a distinct term: a caller-owned array, index/mask object, tensor data or seed that is "
                     "modified shows as a changed term; checked after the forward call and after backward(g) with a symbolic seed. Aliasing: "
                     "np.shares_memory over all pairs of gradient arrays, and an in-place write probe with fresh symbols into each .grad that must not "
